@@ -485,7 +485,13 @@ Definition as_entries (doc : list jv) : option (list entry) :=
 Definition put_ports_gen (V : variant) (E : env) (doc : list jv) (h : hub) : hub * option error :=
   if negb (h_backup_support h) then (h, Some (api_error 404 "no-such-function" None None)) else
   match as_entries doc with
-  | None => (h, Some (api_error 400 "invalid-request" None None))          (* PUT_PORTS: an array of objects *)
+  | None =>
+      (* PUT_PORTS: an array of objects.  The error carries the index of the offending item as `field` - except index 0, which
+         the `if field:` test of schema.validate takes for "no field": invalid-request *)
+      match doc with
+      | JObj _ :: _ => (h, Some (api_error 400 "invalid-field" None (Some "<index>")))
+      | _ => (h, Some (api_error 400 "invalid-request" None None))
+      end
   | Some entries =>
       let h1 := with_flags h false false in                                  (* core_events.disable(); disable_updating() *)
       let '(h2, err) := restore_body V E h1 entries in                       (* try: ... *)
